@@ -70,7 +70,9 @@ def g2_space(tier):
         plan += [(f, L5, g2.UNARY, g2.BINARY, byk(L, ("nat", "var")), False) for f in ("var", "lambda", "block", "def1t")]
     for form, ls, unary, binary, ifl, allopts in plan:
         for e in list(ls) + g2.depth1(ls, unary=unary, binary=binary, if_leaves=ifl):
-            progs.append(P("one-construct" + ("(all -o levels)" if allopts else ""), g2.op_class(form, e), g2.stmt(form, e) + "\n", allopts=allopts))
+            # quick: the unconditional four-level family is the leaf/unary/binary part over three leaf kinds
+            ao = allopts and (not quick or (not (set(e.skel.replace("(", " ").replace(")", " ").split()) & {"float", "list"}) and (not e.ops or e.ops[0].startswith(("un", "bin")))))
+            progs.append(P("one-construct" + ("(all -o levels)" if ao else ""), g2.op_class(form, e), g2.stmt(form, e) + "\n", allopts=ao))
     # -- B: spines (one construct on top of a one-construct operand) ---------------------------------
     if quick:
         xy1 = byk(Ly, ("var", "nat"))
@@ -230,6 +232,8 @@ def compile_all(progs, tag):
         return it
 
     def run_items(items, t, cap, chunk):
+        # small chunks when there are few items, so that all workers stay busy to the end
+        chunk = max(1, min(chunk, len(items) // (vlib.NCPU * 4) or 1))
         res, _ = vlib.compile_batch(items, t, chunk=chunk, per_item_ms=cap)
         return res
 
